@@ -2,22 +2,23 @@
 (***************************************************************************)
 (* C17: ensure_aw / run_aw_threadsafe / loop_in_thread.                    *)
 (* Events: Config{target,ncallers} CallStart{c,thr,to,fn,kind,out}         *)
-(*  AwEval{c,thr,loop} CallEnd{c,kind,tag,exctype} RunnerEnter{loop,thr}   *)
+(*  AwEval{c,thr,loop} AwDone{c} CallEnd{c,kind,tag,exctype} RunnerEnter{loop,thr}   *)
 (*  RunnerExit{loop,thr} LITReturned{running} StopReturned{running} End    *)
 (***************************************************************************)
 EXTENDS Util
 Props == {"C17"}
-MInit == [target |-> "", call |-> EmptyFn, pend |-> {}, runner |-> EmptyFn, stopRunner |-> "",
+MInit == [target |-> "", call |-> EmptyFn, pend |-> {}, runner |-> EmptyFn, stopRunner |-> "", awdone |-> EmptyFn,
           bad |-> [p \in Props |-> Ok]]
 MStep(m, e, idx) ==
   CASE e.e = "Config" -> [m EXCEPT !.target = e.target]
     [] e.e = "CallStart" ->
-        [m EXCEPT !.call = Put(@, e.c, [thr |-> e.thr, to |-> e.to, out |-> e.out, fn |-> e.fn]),
+        [m EXCEPT !.call = Put(@, e.c, [thr |-> e.thr, to |-> e.to, out |-> e.out, fn |-> e.fn, kind |-> e.kind]),
                   !.pend = @ \cup {e.c}]
     [] e.e = "AwEval" ->
         LET c == m.call[e.c]
             want == IF c.to = "T" THEN "T" ELSE c.thr IN
         [m EXCEPT !.bad = IF e.loop # want THEN Flag(@, "C17", "C17_OnTarget", idx) ELSE @]
+    [] e.e = "AwDone" -> [m EXCEPT !.awdone = Put(@, e.c, e.t)]
     [] e.e = "CallEnd" ->
         LET c == m.call[e.c]
             closed == m.target = "closed" /\ c.to = "T"
@@ -26,7 +27,12 @@ MStep(m, e, idx) ==
                  ELSE IF c.out = "val" /\ e.kind = "val" /\ e.tag = e.c THEN m.bad
                  ELSE IF c.out = "exc" /\ e.kind = "exc" /\ e.tag = e.c THEN m.bad
                  ELSE Flag(m.bad, "C17", "C17_Transparent_" \o e.kind \o "_" \o e.exctype, idx)
-        IN [m EXCEPT !.pend = @ \ {e.c}, !.bad = b]
+            \* "every ensure_aw call completes when its awaitable does": a coroutine is evaluated by the caller's own run
+            \* (or by the permanent runner), which hands the result back at once - no virtual time passes in between.
+            \* (A task / future that completed while another caller was running the loop is only collected once the
+            \*  caller's own run gets the loop's lock: not judged.)
+            b2 == IF c.kind = "coro" /\ e.c \in DOMAIN m.awdone /\ e.t > m.awdone[e.c] THEN Flag(b, "C17", "C17_CompletesLate", idx) ELSE b
+        IN [m EXCEPT !.pend = @ \ {e.c}, !.bad = b2]
     [] e.e = "RunnerEnter" ->
         [m EXCEPT !.runner = Put(@, e.loop, e.thr),
                   !.bad = IF Get(m.runner, e.loop, "") # "" THEN Flag(@, "C17", "C17_OneRunner", idx) ELSE @]
